@@ -361,7 +361,7 @@ func firstDiff(a, b []byte) int {
 	return min(len(a), len(b))
 }
 
-var propLayout = &ev.Prop[LayoutCase]{Sub: "layout", Quick: 20000, Thorough: 1000000,
+var propLayout = &ev.Prop[LayoutCase]{Sub: "layout", Quick: 120000, Thorough: 1000000,
 	Gen: func(t *rapid.T) LayoutCase {
 		return LayoutCase{Ident: gen.Ident(t, "id", []int{0, 1, 2, 7, 8, 11}, []int{0, 4, 5, 6, 7})}
 	}, Check: checkLayout}
